@@ -15,8 +15,6 @@ type (
 	Listener     = net.Listener
 	Addr         = net.Addr
 	UnixAddr     = net.UnixAddr
-	UnixConn     = net.UnixConn
-	UnixListener = net.UnixListener
 	TCPAddr      = net.TCPAddr
 	TCPConn      = net.TCPConn
 	IP           = net.IP
@@ -70,23 +68,50 @@ func Pipe() (Conn, Conn) {
 	return a, b
 }
 
-var errNoFD = errors.New("znet: file descriptor passing is not simulated")
+// UnixConn and UnixListener are types of their own (the real ones cannot be
+// built around a simulated connection): what the code under test does with
+// them is passing file descriptors (zfd) and accepting.
+type UnixConn struct{ *simnet.Conn }
 
-// DialUnix is not simulated (the pipe:// transport passes file descriptors).
+type UnixListener struct{ l *simnet.Listener }
+
+var errNoSim = errors.New("znet: unix sockets of this kind exist in simulation only")
+
+// DialUnix connects to a simulated unix socket.
 func DialUnix(network string, laddr, raddr *UnixAddr) (*UnixConn, error) {
-	if zzsim.Current() == nil {
-		return net.DialUnix(network, laddr, raddr)
+	if zzsim.Current() == nil || raddr == nil {
+		return nil, errNoSim
 	}
-	return nil, errNoFD
+	c, err := simnet.Dial("unix", raddr.Name)
+	if err != nil {
+		return nil, err
+	}
+	return &UnixConn{c}, nil
 }
 
-// ListenUnix is not simulated.
+// ListenUnix opens a simulated unix socket.
 func ListenUnix(network string, laddr *UnixAddr) (*UnixListener, error) {
-	if zzsim.Current() == nil {
-		return net.ListenUnix(network, laddr)
+	if zzsim.Current() == nil || laddr == nil {
+		return nil, errNoSim
 	}
-	return nil, errNoFD
+	l, err := simnet.Listen("unix", laddr.Name)
+	if err != nil {
+		return nil, err
+	}
+	return &UnixListener{l}, nil
 }
+
+func (l *UnixListener) AcceptUnix() (*UnixConn, error) {
+	c, err := l.l.Accept()
+	if err != nil {
+		return nil, err
+	}
+	return &UnixConn{c.(*simnet.Conn)}, nil
+}
+
+func (l *UnixListener) Accept() (net.Conn, error) { return l.l.Accept() }
+func (l *UnixListener) Close() error              { return l.l.Close() }
+func (l *UnixListener) Addr() net.Addr            { return l.l.Addr() }
 
 func InterfaceAddrs() ([]Addr, error)                 { return net.InterfaceAddrs() }
 func Interfaces() ([]Interface, error)                { return net.Interfaces() }
